@@ -9,6 +9,7 @@
    not repeats.  `reachable d st`: st is the state after some history from the fresh state
    of design d in which no add() was accepted (an accepted add() edits the design itself). *)
 Require Import Hdl21.Base.PyInt Hdl21.Model.C07PassMgr Hdl21.Proofs.C07Proofs.
+Require Import Hdl21.Model.C07FlatNames Hdl21.Proofs.C07FlatProofs.
 Require Import Hdl21Gen.DefaultPasses.
 Local Open Scope nat_scope.
 Local Open Scope list_scope.
@@ -19,7 +20,7 @@ Section C07.
   Variable bio : C -> IO.
   Variable fio : C -> FIO.
   Variable body : nat -> mid -> list (view IO FIO) -> C -> C.
-  Variable addc : C -> C.
+  Variable addc : nat -> C -> C.
   Variable caches : list nat.
   Variables bf mk : nat.
   Hypothesis bf_eff : eff caches bf = true.
@@ -43,7 +44,7 @@ Section C07.
 
   Ltac solve_hyps1 :=
     first [exact frame_bundle | exact frame_flat
-          | lazymatch goal with |- eff _ _ = true => fail | |- _ => eassumption end | exact addc].
+          | lazymatch goal with |- eff _ _ = true => fail | |- _ => eassumption end | exact addc | exact 0].
   Ltac solve_eff := first [exact bf_eff | exact mk_eff].
 
   Lemma r_inv d st : wf_design d = true -> reachable d st -> Inv st.
@@ -183,12 +184,12 @@ Section C07.
   Qed.
 
   (* 5. an elaborated module refuses further additions, in every continuation *)
-  Theorem C07_elaborated_refuses_add d st1 o tops t m st3 :
+  Theorem C07_elaborated_refuses_add d st1 o tops t m st3 a :
     wf_design d = true -> mk < P -> reachable d st1 ->
     (o = Elaborate tops \/ o = Export tops \/ o = Netlist tops) ->
     all_below (length (s_design st1)) tops = true -> In t tops -> desc (s_design st1) t m ->
     reachable d st3 -> (forall x, s_stage (fst (step st1 o)) x <= s_stage st3 x) ->
-    step st3 (Add m) = (st3, RRefused C).
+    step st3 (Add m a) = (st3, RRefused C).
   Proof.
     intros W Hmk R1 Ho A Ht D R3 Mono. pose proof (r_inv d st1 W R1) as I1. pose proof (r_inv d st3 W R3) as I3.
     edestruct call_completes with (st := st1) (tops := tops) (t := t) (x := m) as (_ & _ & S2); try solve_hyps1; try solve_eff.
@@ -198,9 +199,24 @@ Section C07.
     pose proof (Mono m). replace (mk <? s_stage st3 m) with true; [reflexivity|]. symmetry. apply Nat.ltb_lt. lia.
   Qed.
 
+  (* 5b. ... and the refused attempt changes NOTHING, whatever the attribute (a new name, or a name the module already
+         holds for an attribute of another kind): every continuation - exporting again, new parents of the module and
+         their export - answers exactly what it answers without the attempt *)
+  Theorem C07_refused_add_changes_nothing d st1 o tops t m st3 a h :
+    wf_design d = true -> mk < P -> reachable d st1 ->
+    (o = Elaborate tops \/ o = Export tops \/ o = Netlist tops) ->
+    all_below (length (s_design st1)) tops = true -> In t tops -> desc (s_design st1) t m ->
+    reachable d st3 -> (forall x, s_stage (fst (step st1 o)) x <= s_stage st3 x) ->
+    run st3 (Add m a :: h) = (fst (run st3 h), RRefused C :: snd (run st3 h)).
+  Proof.
+    intros W Hmk R1 Ho A Ht D R3 Mono. cbn [C07PassMgr.run].
+    rewrite (C07_elaborated_refuses_add d st1 o tops t m st3 a W Hmk R1 Ho A Ht D R3 Mono).
+    destruct (run st3 h) as [st2 rs]. reflexivity.
+  Qed.
+
   (* ... and a module no call has reached accepts them (so the refusal is not vacuous) *)
-  Theorem C07_unelaborated_accepts_add d st m : wf_design d = true -> reachable d st ->
-    m < length (s_design st) -> s_stage st m = 0 -> snd (step st (Add m)) = RAccepted C.
+  Theorem C07_unelaborated_accepts_add d st m a : wf_design d = true -> reachable d st ->
+    m < length (s_design st) -> s_stage st m = 0 -> snd (step st (Add m a)) = RAccepted C.
   Proof.
     intros W R Hm H0. pose proof (r_inv d st W R) as I. cbn [C07PassMgr.step].
     rewrite (i_marked _ _ _ _ _ _ _ _ _ _ st I m), H0.
@@ -265,6 +281,7 @@ Print Assumptions C07_content_history_independent.
 Print Assumptions C07_continuation.
 Print Assumptions C07_idempotent.
 Print Assumptions C07_elaborated_refuses_add.
+Print Assumptions C07_refused_add_changes_nothing.
 Print Assumptions C07_unelaborated_accepts_add.
 Print Assumptions C07_new_parent_sees_bundle_io.
 
@@ -286,7 +303,7 @@ Definition xfio (b : nat) (c : xC) : list xentry := filter (fun e => fst e <=? b
 Definition xcode (vs : list (view nat (list xentry))) : list (nat * nat * nat) :=
   map (fun v => (v_mid v, v_bundle v, match v_flat v with Some l => S (length l) | None => 0 end)) vs.
 Definition xbody (k m : nat) (vs : list (view nat (list xentry))) (c : xC) : xC := (fst c, (k, xcode vs) :: snd c).
-Definition xadd (c : xC) : xC := (fst c + 100, snd c).
+Definition xadd (a : nat) (c : xC) : xC := (fst c + 100 + a, snd c).
 
 Lemma xframe_bundle b k m vs c : k < b -> xbio (xbody k m vs c) = xbio c.
 Proof. reflexivity. Qed.
@@ -324,13 +341,13 @@ Qed.
 
 (* a new parent (module 4) of the elaborated modules 3 and 0; add() refused on the elaborated, accepted on the new one *)
 Example C07_ex_new_parent_and_add :
-  let h := [Export [3]; NewParent [3; 0]; Add 0; Add 3; Export [4]] in
+  let h := [Export [3]; NewParent [3; 0]; Add 0 1; Add 3 2; Export [4]] in
   let h' := [NewParent [3; 0]; Export [4]] in
   map (fun r => match r with RRefused _ => 1 | RAccepted _ => 2 | RNew _ n => 10 + n | _ => 0 end) (snd (xrun (xfresh xd) h))
     = [0; 14; 1; 1; 0] /\
   last (snd (xrun (xfresh xd) h)) (RBad xC) = last (snd (xrun (xfresh xd) h')) (RBad xC) /\
-  snd (xstep (fst (xrun (xfresh xd) h)) (Add 4)) = RRefused xC /\
-  snd (xstep (fst (xrun (xfresh xd) [NewParent [3; 0]])) (Add 4)) = RAccepted xC.
+  snd (xstep (fst (xrun (xfresh xd) h)) (Add 4 7)) = RRefused xC /\
+  snd (xstep (fst (xrun (xfresh xd) [NewParent [3; 0]])) (Add 4 7)) = RAccepted xC.
 Proof. vm_compute. repeat split. Qed.
 
 (* a pass list that names two classes twice (the pinned default list: entries 7 and 8 repeat the classes of entries 3
@@ -345,3 +362,148 @@ Example C07_ex_repeated_classes :
   length (s_log (fst (yrun (xfresh xd) h1))) = 32 /\
   forallb (fun e => negb ((fst (fst e) =? 7) || (fst (fst e) =? 8))) (s_log (fst (yrun (xfresh xd) h1))) = true.
 Proof. vm_compute. repeat split. Qed.
+
+
+(* ================================================================================================ strengthening round
+   The NAMES created and wired by the bundle-flattening pass (Model/C07FlatNames.v) as a concrete body of the machine:
+   `fbody bf pre post` runs ANY bodies `pre` before and `post` after the flattening entry (constrained by the frame
+   conditions only) and the flattening-names body at the flattening entry.  A parent's flattening body wires the instances
+   of a child to the flat ports it READS from the child's flattened io (THE_CACHE.flat_bundle_ports); the theorems say
+   that, whatever the history, these are the child's real ports in every later state — including the names that had to
+   dodge other names of the child — and that re-deriving them from the child's bundle-level io is wrong. *)
+From Coq Require Import String.
+Section C07Flat.
+  Variable init : mid -> cmod.
+  Variables pre post : nat -> mid -> list (view cio cfl) -> cmod -> cmod.
+  Variable addc : nat -> cmod -> cmod.
+  Variable caches : list nat.
+  Variables bf mk : nat.
+  Hypothesis bf_eff : eff caches bf = true.
+  Hypothesis mk_eff : eff caches mk = true.
+  Hypothesis pre_frame : forall k m vs c, k < bf -> cbio (pre k m vs c) = cbio c.
+  Hypothesis post_frame : forall k m vs c, bf < k -> cfio (post k m vs c) = cfio c.
+
+  Notation body := (fbody bf pre post).
+  Notation P := (List.length caches).
+  Notation step := (step cmod cio cfl cbio cfio body addc caches bf mk).
+  Notation fresh := (init_state cmod cio cfl init).
+  Notation reachable := (reachable cmod cio cfl init cbio cfio body addc caches bf mk).
+  Notation Inv := (Inv cmod cio cfl init cbio cfio body caches bf mk).
+
+  (* 8. the machine's hypotheses hold for the flattening-names body inside any such pass list: every theorem of the
+        section above applies to it *)
+  Theorem C07_flat_frames :
+    (forall k m vs c, k < bf -> cbio (body k m vs c) = cbio c) /\
+    (forall k m vs c, bf < k -> cfio (body k m vs c) = cfio c).
+  Proof. split; [apply fbody_frame_bundle; exact pre_frame|apply fbody_frame_flat; [exact pre_frame|exact post_frame]]. Qed.
+
+  Theorem C07_flat_history_independent d st tops : wf_design d = true -> reachable d st ->
+    all_below (List.length (s_design st)) tops = true ->
+    snd (step st (Export tops)) = snd (step (fresh (s_design st)) (Export tops)).
+  Proof.
+    intros W R A. destruct C07_flat_frames as [F1 F2].
+    apply (C07_history_independent cmod cio cfl init cbio cfio body addc caches bf mk bf_eff mk_eff F1 F2 d st tops W R A).
+  Qed.
+
+  (* 9. flatname always finds a name, not among the names to avoid (the recursion fuel is never exhausted) *)
+  Theorem C07_flatname_total name avoid : exists n, flatname name avoid = Some n /\ ~ In n avoid.
+  Proof. exact (flatname_total name avoid). Qed.
+
+  (* 10. the flattening body keeps the namespace free of duplicates (flattened names dodge every name held), and every
+         flat port its cache entries name is a port of the module *)
+  Theorem C07_flat_names_fresh vs c : NoDup (c_ns c) ->
+    NoDup (c_ns (flatten_body vs c)) /\ flat_ok (cfio (flatten_body vs c)).
+  Proof. intros N. split; [apply flatten_ns_nodup; exact N|apply flatten_flat_ok]. Qed.
+
+  (* 11. THE MECHANISM of seeded change C07-B: in any state reached by any history, for every flattening visit of a
+         module m: the flat io it read of each child IS the child's flattened io in that (later) state, whose flat port
+         names are ports of the child; hence every connection name the visit gave an instance of the child is a
+         connection it had before or a REAL port of the child — whenever, and by whichever call, the child was flattened *)
+  Theorem C07_flat_wires_real_ports d st m vs : wf_design d = true -> reachable d st -> In (bf, m, vs) (s_log st) ->
+    forall ch, In ch (kids (s_design st) m) ->
+      In (View ch (cbio (init ch)) (Some (cfio (s_content st ch)))) vs /\
+      flat_ok (cfio (s_content st ch)) /\
+      forall conns p, In p (snd (rewire_inst vs (ch, conns))) -> In p conns \/ In p (c_ports (s_content st ch)).
+  Proof.
+    intros W R Hin ch Hch. destruct C07_flat_frames as [F1 F2].
+    assert (I : Inv st).
+    { eapply reachable_inv; try exact F1; try exact F2; try exact bf_eff; try exact mk_eff; try exact addc; [|exact R].
+      apply wf_design_WF; exact W. }
+    destruct (C07_reads_stable cmod cio cfl init cbio cfio body addc caches bf mk bf_eff mk_eff F1 F2 d st bf m vs W R Hin) as [E1 E2].
+    assert (Sm : bf < s_stage st m).
+    { apply in_log_keys in Hin. apply (i_login _ _ _ _ _ _ _ _ _ _ st I) in Hin. lia. }
+    assert (Sc : bf < s_stage st ch).
+    { pose proof (i_kids _ _ _ _ _ _ _ _ _ _ st I m ch Hch). lia. }
+    assert (FO : flat_ok (cfio (s_content st ch))).
+    { rewrite (i_content _ _ _ _ _ _ _ _ _ _ st I ch).
+      apply (canon_flat_ok bf pre post pre_frame post_frame init caches bf_eff); [apply (i_wf _ _ _ _ _ _ _ _ _ _ st I)|exact Sc]. }
+    assert (Vch : In (View ch (cbio (init ch)) (Some (cfio (s_content st ch)))) vs).
+    { rewrite E1. apply in_map_iff. exists ch. split; [|exact Hch].
+      unfold cview, cv. rewrite Nat.leb_refl. f_equal. f_equal.
+      rewrite (i_content _ _ _ _ _ _ _ _ _ _ st I ch). symmetry.
+      apply (canon_fio cmod cio cfl init cbio cfio body addc caches bf mk F1 F2); [apply (i_wf _ _ _ _ _ _ _ _ _ _ st I)|exact Sc]. }
+    split; [exact Vch|]. split; [exact FO|].
+    intros conns p Hp. unfold rewire_inst in Hp. cbn [fst snd] in Hp.
+    destruct (find_view ch vs) as [v|] eqn:Ef; [|left; exact Hp].
+    apply find_view_in in Ef. destruct Ef as [Hv Mv].
+    rewrite E2 in Hv. apply in_map_iff in Hv. destruct Hv as [c' [Ev Hc']].
+    subst v. unfold view_of in Mv. cbn [v_mid] in Mv. subst c'.
+    unfold view_of in Hp. cbn [v_flat] in Hp. rewrite Nat.leb_refl in Hp. cbn [fst snd cfio] in Hp.
+    apply rewire_names in Hp. destruct Hp as [[Hp _]|[q [fm [path [Hq [Hfm Hpath]]]]]]; [left; exact Hp|right].
+    apply (FO q fm path p); [exact Hfm|exact Hpath].
+  Qed.
+End C07Flat.
+
+Print Assumptions C07_flat_frames.
+Print Assumptions C07_flat_history_independent.
+Print Assumptions C07_flatname_total.
+Print Assumptions C07_flat_names_fresh.
+Print Assumptions C07_flat_wires_real_ports.
+
+Local Open Scope string_scope.
+(* 12. the variant of seeded change C07-B is WRONG: re-deriving the flat port names of a child from its bundle-level io
+       (`flatname([portname, path])`, nothing to avoid) wires a name that is not a port of the child and leaves a real
+       flat port unconnected, as soon as a flattened name had to dodge a name of the child that its io does not show
+       (here the internal signal b_x next to the bundle port b with member x) *)
+Definition zleaf : cmod := CM ["b"; "b_x"; "q"] ["q"] [CB "b" true ["x"; "y"]] [] [].
+Theorem C07_flat_rederive_refuted : exists leaf conns,
+  let real := flatten_body [] leaf in
+  (forall p, In p (rewire (c_flat real) conns) -> In p (c_ports real)) /\
+  (exists p, In p (rewire (rederive (cbio leaf)) conns) /\ ~ In p (c_ports real)) /\
+  (exists q, In q (c_ports real) /\ ~ In q (rewire (rederive (cbio leaf)) conns)).
+Proof.
+  exists zleaf, ["b"; "q"]. vm_compute. split; [|split].
+  - intros p H. intuition.
+  - exists "b_x". split; [auto|]. intros H. repeat (destruct H as [H|H]; [discriminate|]). exact H.
+  - exists "b_x_". split; [auto|]. intros H. repeat (destruct H as [H|H]; [discriminate|]). exact H.
+Qed.
+Print Assumptions C07_flat_rederive_refuted.
+
+(* non-vacuity: the flattening-names body on a child whose bundle port b {x, y, sub.z} meets a scalar PORT b_x and internal
+   signals b_y, b_y_; a parent that connects the port bundle, an internal bundle and the scalar port *)
+Definition zchild : cmod :=
+  CM ["vss"; "b"; "b_x"; "b_y"; "b_y_"; "i"] ["vss"; "b_x"] [CB "b" true ["x"; "y"; "sub_z"]; CB "i" false ["x"; "y"; "sub_z"]] [] [].
+Definition zparent : cmod :=
+  CM ["vss"; "b"; "i"; "b_x"; "u0"; "u1"] ["vss"; "b_x"] [CB "b" true ["x"; "y"; "sub_z"]; CB "i" false ["x"; "y"; "sub_z"]]
+     [(0, ["vss"; "b"; "b_x"]); (0, ["b_x"; "b"; "vss"])] [].
+Definition zinit (m : mid) : cmod := nth m [zchild; zparent] cm_empty.
+Definition zbody := fbody 4 (fun _ _ _ c => c) (fun _ _ _ c => c).
+Definition zrun := run cmod cio cfl cbio cfio zbody (fun _ c => c) (seq 0 10) 4 9.
+Definition zfresh := init_state cmod cio cfl zinit.
+
+Example C07_ex_flat_dodged_names :
+  let h1 := [Elaborate [0]; Export [1]] in
+  let h2 := [Export [1]] in
+  let h3 := [Netlist [0; 0]; Add 0 3; NewParent [0]; Elaborate [1; 0]; Export [1]] in
+  last (snd (zrun (zfresh [[]; [0; 0]]) h1)) (RBad cmod) = last (snd (zrun (zfresh [[]; [0; 0]]) h2)) (RBad cmod) /\
+  last (snd (zrun (zfresh [[]; [0; 0]]) h3)) (RBad cmod) = last (snd (zrun (zfresh [[]; [0; 0]]) h2)) (RBad cmod) /\
+  (exists c0 c1, last (snd (zrun (zfresh [[]; [0; 0]]) h1)) (RBad cmod) = RPkg cmod [(0, c0); (1, c1)] /\
+     c_ports c0 = ["vss"; "b_x"; "b_x_"; "b_y__"; "b_sub_z"] /\
+     c_flat c0 = [("b", [("x", "b_x_"); ("y", "b_y__"); ("sub_z", "b_sub_z")])] /\
+     c_insts c1 = [(0, ["vss"; "b_x_"; "b_y__"; "b_sub_z"; "b_x"]); (0, ["b_x"; "b_x_"; "b_y__"; "b_sub_z"; "vss"])] /\
+     c_ports c1 = ["vss"; "b_x"; "b_x_"; "b_y"; "b_sub_z"] /\ NoDup (c_ns c0) /\ NoDup (c_ns c1)).
+Proof.
+  vm_compute. split; [reflexivity|]. split; [reflexivity|]. do 2 eexists. split; [reflexivity|].
+  repeat (split; [reflexivity|]).
+  split; repeat (constructor; [simpl; intuition discriminate|]); constructor.
+Qed.
